@@ -30,6 +30,7 @@ type specEnv struct {
 	depth  int
 	oldEnv *specEnv
 	hdrEnv *specEnv
+	witFr  *Frame // frame whose loop variables serve as existential witness hints (survives macro expansion)
 }
 
 func basicType(k types.BasicKind) types.Type { return types.Typ[k] }
@@ -410,6 +411,18 @@ func (e *specEnv) deref(v SVal) (SVal, error) {
 
 func (e *specEnv) selectField(v SVal, name string) (SVal, error) {
 	fx := e.fx
+	if v.V.LS != nil {
+		for _, f := range structFields(v.V.LS.Ty) {
+			if f.Name() == name {
+				k := v.V.LS.Key + "." + name
+				if isStruct(f.Type()) {
+					return SVal{V: Val{LS: &LocalStruct{Key: k, Ty: f.Type()}, Known: true}, Ty: f.Type()}, nil
+				}
+				return sv(fx.readLV(e.st, fx.localLV(k, f.Type())), f.Type()), nil
+			}
+		}
+		return SVal{}, fmt.Errorf("no field %s in local struct %s", name, v.V.LS.Key)
+	}
 	if v.Ty == nil {
 		return SVal{}, fmt.Errorf("selector .%s on untyped value", name)
 	}
@@ -684,6 +697,9 @@ func (e *specEnv) call(n *ast.CallExpr) (SVal, error) {
 		}
 		ae := e.child()
 		ae.st = ms
+		if r, ok := fx.markRes[label]; ok {
+			ae.vars["callresult"] = r
+		}
 		return ae.eval(n.Args[1])
 	case "hdr":
 		if e.hdrEnv == nil {
@@ -878,10 +894,34 @@ func (e *specEnv) call(n *ast.CallExpr) (SVal, error) {
 			t = IfVal(t)
 		}
 		return sv(Gt(t, e.old.wm), boolT), nil
+	case "own":
+		// own(x): x is one of the objects this activation allocated and has not let escape (its cells survive
+		// opaque calls)
+		t, err := argT(0)
+		if err != nil {
+			return SVal{}, err
+		}
+		switch t.Sort {
+		case SSlice:
+			t = SlBase(t)
+		case SIface:
+			t = IfVal(t)
+		}
+		var alts []Term
+		for _, r := range e.st.priv {
+			alts = append(alts, And(Lt(r.lo, t), Le(t, r.hi)))
+		}
+		return sv(Or(alts...), boolT), nil
 	case "allocated":
 		t, err := argT(0)
 		if err != nil {
 			return SVal{}, err
+		}
+		switch t.Sort {
+		case SSlice:
+			t = SlBase(t)
+		case SIface:
+			t = IfVal(t)
 		}
 		return sv(And(Ge(t, Int(0)), Le(t, e.st.wm)), boolT), nil
 	case "hasPrefix", "hasSuffix", "contains":
@@ -1001,6 +1041,16 @@ func (e *specEnv) call(n *ast.CallExpr) (SVal, error) {
 			return SVal{}, err
 		}
 		return sv(SlOff(a), intT), nil
+	case "unboxs":
+		a, err := argT(0)
+		if err != nil {
+			return SVal{}, err
+		}
+		if a.Sort != SIface {
+			return SVal{}, fmt.Errorf("unboxs needs an interface value")
+		}
+		lv := &LV{Key: "Box.String", Ref: IfVal(a), Sort: SString}
+		return sv(fx.readLV(e.st, lv), types.Typ[types.String]), nil
 	case "ghost":
 		lit, ok := n.Args[0].(*ast.BasicLit)
 		if !ok {
@@ -1076,6 +1126,9 @@ func (e *specEnv) call(n *ast.CallExpr) (SVal, error) {
 			bind[p.Name] = a
 		}
 		ce.vars = bind
+		if e.fr != nil {
+			ce.witFr = e.fr
+		}
 		ce.fr = nil
 		ce.at = nil
 		if e.oldEnv != nil {
@@ -1160,10 +1213,18 @@ func (e *specEnv) goCall(n *ast.CallExpr) (SVal, error) {
 			return SVal{}, fmt.Errorf("no method %s on %v", f.Sel.Name, recv.Ty)
 		}
 		if isInterface(recv.Ty) {
-			// uninterpreted pure interface method
-			uf := fx.ctx.DeclFun("imeth!"+typeKey(recv.Ty)+"."+f.Sel.Name, []Sort{SIface}, sortOf(sel.Type().(*types.Signature).Results().At(0).Type()))
+			// interface method: an uninterpreted function of the receiver — the same one the call sites use when
+			// the method has a `deterministic` contract
 			rt := sel.Type().(*types.Signature).Results().At(0).Type()
-			return sv(App(sortOf(rt), uf, fx.materialize(recv.V, recv.Ty)), rt), nil
+			m, _ := sel.Obj().(*types.Func)
+			name := "iface:" + typeKey(recv.Ty) + "." + f.Sel.Name
+			if m != nil {
+				name = "iface:" + ifaceMethodName(recv.Ty, m)
+			}
+			if len(n.Args) != 0 {
+				return SVal{}, fmt.Errorf("interface method calls with arguments are not supported in specs")
+			}
+			return sv(fx.pureUF(name, []Val{recv.V}, []types.Type{recv.Ty}, rt), rt), nil
 		}
 		fn = fx.eng.prog.MethodValue(sel)
 		args = append(args, recv.V)
@@ -1245,11 +1306,15 @@ func (e *specEnv) evalQuantBody(x ast.Expr) (t Term, err error) {
 
 // witnessCandidates: integer loop variables of the frame (and their successors), used as existential witness hints.
 func (e *specEnv) witnessCandidates() []Term {
-	if e.fr == nil || e.fx.ctx.quant > 0 {
+	wf := e.fr
+	if wf == nil {
+		wf = e.witFr
+	}
+	if wf == nil || e.fx.ctx.quant > 0 {
 		return nil
 	}
 	var out []Term
-	for _, b := range e.fr.fn.Blocks {
+	for _, b := range wf.fn.Blocks {
 		for _, in := range b.Instrs {
 			phi, ok := in.(*ssa.Phi)
 			if !ok {
@@ -1258,7 +1323,7 @@ func (e *specEnv) witnessCandidates() []Term {
 			if sortOf(phi.Type()) != SInt || isRefLike(phi.Type()) {
 				continue
 			}
-			if v, ok := e.fr.vals[phi]; ok && v.T.S != "" {
+			if v, ok := wf.vals[phi]; ok && v.T.S != "" {
 				out = append(out, v.T, Add(v.T, Int(1)))
 			}
 			if len(out) >= 8 {
